@@ -60,16 +60,22 @@ class Model:
         class Gen(PartGenerator):
             """Generates single parts or batches of a fixed size; numbers the leaves."""
 
-            def __init__(self, value, bsrc, bmix=False):
+            def __init__(self, value, bsrc, bmix=False, bnest=0):
                 super().__init__('P', value=value, quality=1)
                 self.bsrc = bsrc
                 self.bmix = bmix
+                self.bnest = bnest       # > 0: every member of the batch is itself a batch of bnest parts
 
             def generate_part_helper(self, part_name, part_counter):
                 from simprocesd.model.factory_floor import Part
                 if self.bsrc < 0 or (self.bmix and part_counter % 2 == 0):
                     return Part(part_name, value=self.value, quality=self.quality)
-                ps = [Part('%s_%d' % (part_name, i), value=self.value, quality=self.quality) for i in range(self.bsrc)]
+                if self.bnest > 0:
+                    ps = [Batch('%s_%d' % (part_name, i),
+                                [Part('%s_%d_%d' % (part_name, i, j), value=self.value, quality=self.quality)
+                                 for j in range(self.bnest)]) for i in range(self.bsrc)]
+                else:
+                    ps = [Part('%s_%d' % (part_name, i), value=self.value, quality=self.quality) for i in range(self.bsrc)]
                 return Batch(part_name, ps)
 
         PartFlowController = __import__('simprocesd.model.factory_floor', fromlist=['PartFlowController']).PartFlowController
@@ -84,7 +90,7 @@ class Model:
             name = None if cfg.get('noname') else 'd%d' % d['id']      # default names contain the asset id
             if k == 'source':
                 budget = float('inf') if d.get('budget', INF) == INF else d['budget']
-                o = Source(name, Gen(d.get('pval', 0), d.get('bsrc', -1), d.get('bmix', False)), cycle_time=d['cyc'] * TICK,
+                o = Source(name, Gen(d.get('pval', 0), d.get('bsrc', -1), d.get('bmix', False), d.get('bnest', 0)), cycle_time=d['cyc'] * TICK,
                            starting_parts=budget)
             elif k == 'handler':
                 o = PartHandler(name, ups, cycle_time=d['cyc'] * TICK)
